@@ -81,6 +81,7 @@ package transport
 //@ func (rs *rawSocketPeer) sendHandler
 //@   props C15 C04
 //@   requires rs != nil
+//@   returnsite : [sender-ends-only-when-the-peer-is-closed] selected(senderDone)
 //@   callsite Write : [header-then-payload] (arg1 == header ==> len(b) <= rs.sendLimit && len(b) < 16777216 && header[0] == 0 && be24(header[1], header[2], header[3]) == len(b)) && (arg1 != header ==> arg1 == b)
 
 // Inbound: only data frames (type 0) within the announced limit are
